@@ -48,9 +48,22 @@ func runC13(c map[string]interface{}) []Event {
 			e["res"] = encIntPath(back)
 		})
 		e["inputsame"] = reflect.DeepEqual(before, l)
-	case "poly":
+	case "poly", "polyopen":
 		p := decPolygon(c["rings"], intDec)
 		before := decPolygon(c["rings"], intDec)
+		if str(c["kind"]) == "polyopen" {
+			// the rings lie back to back in one array of points, each with the rest of the array as spare capacity
+			n := 0
+			for _, r := range p {
+				n += len(r)
+			}
+			pts := make([]geom.Point, 0, n)
+			for i, r := range p {
+				off := len(pts)
+				pts = append(pts, r...)
+				p[i] = geom.Path(pts[off:len(pts):cap(pts)])
+			}
+		}
 		e["out"] = safely(func() {
 			r := p.Simplify(tol).(geom.Polygon)
 			res := make([]interface{}, len(r))
